@@ -194,7 +194,9 @@ class FalsyStrictUndefined(StrictUndefined):
         return False
 
     def __eq__(self, other: object) -> bool:
-        return other is False
+        # Equal to what the default undefined type is equal to, so a render that
+        # succeeds with this policy gives the same output as the default policy.
+        return isinstance(other, Undefined) or other is None
 
 
 def is_undefined(obj: object) -> TypeGuard[Undefined]:
